@@ -16,6 +16,7 @@ import Driver.Plan
 import Driver.Copy
 import Driver.Reverse
 import Driver.Clean
+import Driver.Tidb
 open Lean
 
 def dispatch (j : Json) : Json :=
@@ -43,6 +44,7 @@ def dispatch (j : Json) : Json :=
   | "copy.plan" => Driver.handleCopyPlan j
   | "rev.plan" => Driver.handleRevPlan j
   | "clean.check" => Driver.handleCleanCheck j
+  | "tidb.order" => Driver.handleTidbOrder j
   | "h1" => Json.mkObj [("h", Atlas.Base.h1 (Driver.unhex (Driver.str j "hex")))]
   | op => Json.mkObj [("err", s!"unknown-op:{op}")]
 
